@@ -238,12 +238,13 @@ theorem refund_is_one_write (s : Tower) (ks : List Uuid) :
 /-- **deletion_call_sites_are_the_modelled_ones** (tie to the source, regenerated on every run):
 `Gatekeeper::delete_appointments` is called with `refund = true` only for the completed trackers of
 `Responder::filtered_block_connected`; the rejected trackers there, the watcher's invalid breaches and
-a late appointment whose penalty is rejected are deleted with `refund = false`; tracker statuses are
+a late appointment whose penalty is rejected or whose blob does not decrypt (two sites in
+`store_triggered_appointment`) are deleted with `refund = false`; tracker statuses are
 written only by `check_confirmations`, `handle_reorged_txs` and `rebroadcast_stale_txs`. -/
 theorem deletion_call_sites_are_the_modelled_ones :
     Gen.Calls.deleteAppointments = [("responder", "filtered_block_connected", "true"),
       ("responder", "filtered_block_connected", "false"), ("watcher", "store_triggered_appointment", "false"),
-      ("watcher", "filtered_block_connected", "false")] ∧
+      ("watcher", "store_triggered_appointment", "false"), ("watcher", "filtered_block_connected", "false")] ∧
     Gen.Calls.updateTrackerStatus = [("responder", "check_confirmations", ""), ("responder", "handle_reorged_txs", ""),
       ("responder", "rebroadcast_stale_txs", "")] ∧
     Gen.Calls.removeUsers = [("gatekeeper", "filtered_block_connected", "")] := by
